@@ -6,7 +6,7 @@ import tempfile
 from hypothesis import strategies as st
 
 from pbt import files
-from pbt.core import call
+from pbt.core import call, draw_tz
 
 PROP = "C12"
 TECHNIQUE = "bounded exhaustive enumeration of all short encodings (state-machine transition coverage) + Hypothesis-sampled long forecasts vs. the generating list (round trip through a reference encoder); negative cases with decreasing ids must be rejected"
@@ -160,9 +160,9 @@ def make_long_cases(max_n):
                 cats.append([list(mk_event(ci, k, draw(st.booleans()), eid=draw(ids))) for k in range(s)])
             else:
                 cats.append(s)
-        return {"cats": cats, "enc": enc, "header": draw(st.booleans()), "frac": draw(st.booleans()),
+        return draw_tz(draw, {"cats": cats, "enc": enc, "header": draw(st.booleans()), "frac": draw(st.booleans()),
                 "timefmt": draw(st.sampled_from(["auto", "us", "ms"])), "eol": draw(st.sampled_from(["\n", "\r\n"])), "final_newline": draw(st.booleans()),
-                **({"swap": draw(st.integers(0, 50))} if draw(st.integers(0, 5)) == 0 else {})}
+                **({"swap": draw(st.integers(0, 50))} if draw(st.integers(0, 5)) == 0 else {})})
     return long_cases()
 
 
